@@ -8,6 +8,7 @@ mod faultops;
 mod histops;
 mod wasmops;
 mod tables;
+mod unitops;
 
 fn main() {
     // panics are caught per case and reported as outcome `trap`; keep stderr quiet
